@@ -6,7 +6,7 @@ CONSTANTS
   StmtFull = FALSE
   Salts = {0}
   EmitMod = 1
-  GenFam = {"lit", "chain", "corner", "kwprefix"}
+  GenFam = {"lit", "chain", "corner", "kwprefix", "matrix"}
 INIT FInit
 NEXT FNext
 INVARIANT EmitFixed
